@@ -62,9 +62,9 @@ def tree_syms(tree) -> list:
 
 
 ACT = {
-    0: lambda x: 1.0 / (1.0 + math.exp(-x)) if x > -700 else 0.0,
+    0: lambda x: (1.0 / (1.0 + math.exp(-x)) if x > -700 else 0.0),
     1: lambda x: x if x > 0 else 0.0,
-    2: lambda x: math.exp(-(x * x)),
+    2: lambda x: (math.exp(-(x * x)) if abs(x) < 27 else 0.0),
     3: math.tanh,
     4: lambda x: x,
 }
